@@ -3,4 +3,4 @@ Require Import ExtrOcamlBasic.
 From Coq Require Import ZArith NArith.
 From SWH.lib Require Import Sha1 Hex.
 From SWH.model Require Import Dir.
-Extraction "extract/C02/model.ml" mk_dir_manifest dir_manifest git_tree_object decode_tree_object valid_dir sha1 Z.of_N N.to_nat.
+Extraction "extract/C02/model.ml" mk_dir_manifest dir_manifest git_tree_object decode_tree_object valid_dir dir_compute_hash sha1 Z.of_N N.to_nat.
